@@ -10,6 +10,7 @@ import (
 	"os"
 	"path/filepath"
 	"sort"
+	"strconv"
 	"time"
 
 	"golang.org/x/crypto/openpgp"
@@ -237,7 +238,7 @@ func loadOnce(b []byte, check J) (obs J, id string) {
 	arMeta := []interface{}{}
 	for _, n := range names {
 		e := d.ArContent[n]
-		arMeta = append(arMeta, J{"name": n, "mtime": int(e.Timestamp), "uid": int(e.OwnerID), "gid": int(e.GroupID), "mode": e.FileMode, "size": int(e.Size)})
+		arMeta = append(arMeta, J{"name": n, "mtime": strconv.FormatInt(e.Timestamp, 10), "uid": int(e.OwnerID), "gid": int(e.GroupID), "mode": e.FileMode, "size": int(e.Size)})
 	}
 	files := []interface{}{}
 	for i := 0; i < 10000; i++ {
